@@ -246,20 +246,22 @@ class ForwardScheduler(IScheduler):
     def __forward_pass(
             self,
             _task: Task,
-            min_date: datetime,
             resource_usage: _ResourceUsage,
             calculated: List[int]
     ):
         if _task.id in calculated:
             return
 
-        for pred in _task.predecessors:
-            self.__forward_pass(pred, min_date, resource_usage, calculated)
-
-        max_predecessor_ends = max([t.end for t in _task.predecessors if t.end is not None] + [min_date])
+        # Task waits for its own predecessors and for predecessors of all its parents,
+        # no matter from where the task is reached
+        max_predecessor_ends = self.__start
+        for t in [_task] + [p for p in _task.all_parents]:
+            for pred in t.predecessors:
+                self.__forward_pass(pred, resource_usage, calculated)
+            max_predecessor_ends = max([p.end for p in t.predecessors if p.end is not None] + [max_predecessor_ends])
 
         for ch in _task.children:
-            self.__forward_pass(ch, max_predecessor_ends, resource_usage, calculated)
+            self.__forward_pass(ch, resource_usage, calculated)
 
         resource = self.__resources.setdefault(_task.resource, Resource(_task.resource))
 
@@ -323,7 +325,7 @@ class ForwardScheduler(IScheduler):
         forward_resource_usage = _ResourceUsage()
         calculated = []
         for t in forward.roots:
-            self.__forward_pass(t, self.__start, forward_resource_usage, calculated)
+            self.__forward_pass(t, forward_resource_usage, calculated)
 
         return Schedule(
             forward,
